@@ -29,7 +29,8 @@ TCommit  == Is("Commit") /\ Commit(e.b)
 TDiscard == Is("Discard") /\ Discard(e.b)
 TGet     == Is("Get") /\ Obs /\ LET g == GetOf(store, e.k) IN e.found = g.found /\ (g.found => e.v = g.v)
 THas     == Is("Has") /\ Obs /\ e.found = HasOf(store, e.k)
-TIter    == Is("Iter") /\ Obs /\ e.keys = IterKeys(store, e.p, e.s) /\ e.vals = IterVals(store, e.p, e.s)
+\* held = 1: the value slice the iterator handed out changed when its key was overwritten (same length) meanwhile
+TIter    == Is("Iter") /\ Obs /\ e.keys = IterKeys(store, e.p, e.s) /\ e.vals = IterVals(store, e.p, e.s) /\ e.held = 0
 
 TraceInit == l = 1 /\ store = <<>> /\ batch = [b \in Batches |-> [open |-> FALSE, ops |-> <<>>]]
 TraceNext == TReset \/ TPut \/ TDelete \/ TBNew \/ TBPut \/ TBDel \/ TCommit \/ TDiscard \/ TGet \/ THas \/ TIter
